@@ -57,6 +57,8 @@ type concCase struct {
 	CloseDelayUs int `json:"close_delay_us,omitempty"`
 	// FlushDelayUs (kind serial-flush): the port's Flush takes this long
 	FlushDelayUs int `json:"flush_delay_us,omitempty"`
+	// ReadBlockUs (serial kinds): a Read on the port blocks this long while no reply byte is readable (default 300 us)
+	ReadBlockUs int `json:"read_block_us,omitempty"`
 }
 
 func framingOf(kind string) spec.Framing {
@@ -149,6 +151,7 @@ func runConc(c concCase) harness.Result {
 	var closeFn func() error
 	var connectFn func() error
 	if isSerial(c.Kind) {
+		mon.IdleRead = time.Duration(c.ReadBlockUs) * time.Microsecond
 		sp := serialPort{mon.NewConn()}
 		var port io.ReadWriteCloser = sp
 		if c.Kind == "serial-flush" {
@@ -384,6 +387,10 @@ func genConc(t *rapid.T) concCase {
 			if withCancel {
 				if rapid.IntRange(0, 2).Draw(t, "delayed") == 0 {
 					cl.DelayUs = rapid.SampledFrom([]int{500, 1500, 3000}).Draw(t, "delay_us")
+					if isSerial(c.Kind) {
+						// the serial client starts reading 30 ms after its write: longer delays keep it blocked in Read
+						cl.DelayUs = rapid.SampledFrom([]int{500, 3000, 40000, 60000}).Draw(t, "delay_us_serial")
+					}
 				}
 				if rapid.IntRange(0, 3).Draw(t, "cancellable") == 0 {
 					cl.CancelUs = rapid.SampledFrom([]int{1, 100, 400, 1000, 2500}).Draw(t, "cancel_us")
@@ -397,6 +404,9 @@ func genConc(t *rapid.T) concCase {
 			total++
 		}
 		c.Workers = append(c.Workers, calls)
+	}
+	if isSerial(c.Kind) {
+		c.ReadBlockUs = rapid.SampledFrom([]int{0, 3000, 15000}).Draw(t, "read_block")
 	}
 	if c.Kind == "serial-flush" {
 		c.FlushDelayUs = rapid.SampledFrom([]int{0, 100, 500, 2000}).Draw(t, "flush_delay")
@@ -419,4 +429,30 @@ var chkConc = harness.Define("shared-client", genConc, runConc)
 
 func TestRandom(t *testing.T) {
 	chkConc.Rapid(t, harness.Pick(40, 1500))
+}
+
+// TestSerialCancelWhileReading: the first caller's context ends while the serial port is blocked in Read (its reply is withheld); the
+// callers queued behind it must find the port free: no transport call of theirs may overlap one still running for the first caller,
+// and each gets the reply to its own request.
+func TestSerialCancelWhileReading(t *testing.T) {
+	idx := 0
+	for _, kind := range []string{"serial", "serial-flush"} {
+		for _, block := range []int{3000, 15000} {
+			for _, cancel := range []int{35000, 45000, 52000} {
+				idx++
+				if !harness.Mine(idx) {
+					continue
+				}
+				c := concCase{Kind: kind, Procs: 16, DevSeed: uint64(idx) + harness.Seed(), ReadBlockUs: block, FlushDelayUs: 100,
+					Workers: [][]call{
+						{{FC: 3, Plan: 1, DelayUs: 90000, CancelUs: cancel}},
+						{{FC: 4, Plan: 2, Pause: 100}},
+						{{FC: 3, Plan: 3, Pause: 150}, {FC: 16, Plan: 4}},
+					}}
+				if !chkConc.Eval(t, c) {
+					return
+				}
+			}
+		}
+	}
 }
